@@ -653,3 +653,26 @@ impl<K: Copy + Ord + Default, V: Clone + Default> MapTree<K, V> {
         }
     }
 }
+
+#[cfg(feature = "verif")]
+impl<K: Copy + Ord + Default, V: Clone + Default> MapTree<K, V> {
+    pub fn verif_snapshot(&self) -> crate::verif::VerifSnapshot<(K, V)> {
+        crate::verif::VerifSnapshot {
+            root: self.root,
+            nodes: self
+                .store
+                .buffer
+                .iter()
+                .map(|n| crate::verif::VerifNode {
+                    parent: n.parent,
+                    left: n.left,
+                    right: n.right,
+                    red: n.color == Color::Red,
+                    entity: (n.entity.key, n.entity.val.clone()),
+                })
+                .collect(),
+            unused: self.store.unused.clone(),
+            unused_capacity: self.store.unused.capacity(),
+        }
+    }
+}
